@@ -164,6 +164,46 @@ def judge_reject_sec(ctx, case):
                      mech="C09.parse.wrong_point")
 
 
+def judge_reject_point(ctx, case):
+    """PublicKey.from_point is a place where a key can be constructed: point OBJECTS (ecdsa backend: affine Point, PointJacobi)
+    that are not on secp256k1 must be refused, valid ones give the key of that point."""
+    from btc_hd_wallet.keys import PublicKey
+    try:
+        import ecdsa
+        from ecdsa.ellipticcurve import PointJacobi
+    except ImportError:
+        return None
+    curve = ecdsa.SECP256k1.curve
+    pt = secp.gmul(case["k"])
+    x, y = pt
+    P = secp.P
+    kind = case["kind"]
+    build = {
+        "valid-jacobian": lambda: PointJacobi(curve, x, y, 1),
+        "valid-jacobian-scaled": lambda: PointJacobi(curve, x * 4 % P, y * 8 % P, 2),
+        "y+1": lambda: PointJacobi(curve, x, (y + 1) % P, 1),
+        "x+1": lambda: PointJacobi(curve, (x + 1) % P, y, 1),
+        "swapped": lambda: PointJacobi(curve, y, x, 1),
+        "y=0": lambda: PointJacobi(curve, x, 0, 1),
+        "broken-z": lambda: PointJacobi(curve, x, y, 3),
+        "other-curve": lambda: ecdsa.NIST256p.generator,
+    }[kind]
+    try:
+        obj = build()
+    except Exception:  # noqa  (ecdsa itself refused to build the object)
+        return None
+    valid = kind.startswith("valid")
+    if valid:
+        try:
+            got = PublicKey.from_point(obj).sec(True)
+        except Exception as e:  # noqa
+            got = e
+        return ctx.judge("reject_point", got == secp.ser(pt, True), case, secp.ser(pt, True), got, cls="point|" + kind, mech="C09.from_point.wrong_key")
+    ok, obs, outcome = refused(lambda: PublicKey.from_point(obj).sec(True))
+    return ctx.judge("reject_point", ok, case, "raise (not a point of secp256k1)", obs, cls="point|" + kind, outcome=outcome.split("@")[0],
+                     mech="C09.from_point.accepted_off_curve")
+
+
 def install_probes(ctx):
     import btc_hd_wallet.keys as keys
     inst = probes.Installed()
@@ -298,6 +338,8 @@ def run(ctx):
             else:
                 raw, tag = b"\x04" + pt[0].to_bytes(32, "big") + ((P - pt[1]) % P).to_bytes(32, "big"), "neg-y-valid"
             judge_reject_sec(ctx, {"raw": raw, "tag": tag})
+        for j in range(ctx.scale(80, 4000)):
+            judge_reject_point(ctx, {"k": gen.scalar(rnd)[1], "kind": ("valid-jacobian", "valid-jacobian-scaled", "y+1", "x+1", "swapped", "y=0", "broken-z", "other-curve")[j % 8]})
         for raw, tag in ((b"\x02" + b"\x00" * 32, "x=0"), (b"\x04" + b"\x00" * 64, "origin"), (b"\x00" * 64, "raw-origin"),
                          (b"\x02" + P.to_bytes(32, "big"), "x=p"), (b"\x02" + b"\xff" * 32, "x=ff")):
             n += 1
@@ -315,5 +357,7 @@ def replay(ctx, monitor, case):
         judge_wif(ctx, case)
     elif monitor == "reject_scalar":
         judge_reject_scalar(ctx, case)
+    elif monitor == "reject_point":
+        judge_reject_point(ctx, case)
     else:
         judge_reject_sec(ctx, case)
